@@ -564,6 +564,7 @@ class Engine:
         self._fresh = itertools.count()
         self._ln_terms = []
         self.pos_names = set()
+        self.pos_terms = set()
         self._last_solver = None
 
     def _check(self, *extra):
@@ -588,6 +589,8 @@ class Engine:
             return e.numerator_as_long() > 0
         if z3.is_const(e) and e.decl().kind() == z3.Z3_OP_UNINTERPRETED:
             return e.decl().name() in self.pos_names
+        if e.get_id() in self.pos_terms:
+            return True
         if not z3.is_app(e):
             return False
         k = e.decl().kind()
@@ -619,6 +622,14 @@ class Engine:
         if hi is not None:
             self.assume(v.e <= _rv(hi), silent=True)
         return v
+
+    def mark_pos(self, v):
+        """record (and assume) that a term is positive, so that later divisions by it do not fork"""
+        e = v.e if isinstance(v, SymReal) else v
+        self.pos_terms.add(e.get_id())
+        self._keep = getattr(self, '_keep', [])
+        self._keep.append(e)  # keep the AST alive: ids are only stable while referenced
+        self.assume(e > 0, silent=True)
 
     def fresh(self, stem='t') -> SymReal:
         name = f"_{stem}{next(self._fresh)}"
